@@ -1,4 +1,5 @@
 import GsModel.Text.EscapeLemmas
+import GsModel.Text.Tags
 import GsModel.Gen.Sites
 /-
   C09 — Free text from the spec never becomes code.
@@ -6,6 +7,11 @@ import GsModel.Gen.Sites
   * `block_safe`, `line_safe`, `raw_roundtrip` (module Text.EscapeLemmas, restated here as property theorems): for EVERY
     string, `blockcomment` output contains no `*/`, `comment` output never leaves the `//` lines, and the
     `escapeBackticks` / `generateReadableSpec` expression evaluates back to the original text.
+  * `struct_tag_one_token`: the struct tag written by `GenSchema.PrintTags` (Go code, not a template site: with
+    `--struct-tags description|example` it carries free text) is, for EVERY list of tags and values, exactly one Go string
+    literal — a raw literal with no backtick inside when every value can be back-quoted, one `strconv.Quote`d literal
+    otherwise (model of strconv.Quote / CanBackquote tied by the correspondence run); `last_value_rule_is_unsafe`: the
+    simplification "only the last value decides" does not have the property.
   * `all_sites_safe`: over the site table REGENERATED on every run by marker rendering (every place a free-text field
     lands in a generated file, its observed lexical context and the transformation observed on probe characters), every
     site is protected by the escaper its context needs, or is one of the listed exceptions.  The exceptions are the
@@ -26,6 +32,20 @@ example : hasBlockEnd "x */ func init() {} /*".toList = true ∧ hasBlockEnd (bl
   decide
 example : inLineComments "a\nfunc init() {}".toList = false ∧ inLineComments (padComment "a\nfunc init() {}".toList [' ']) = true := by
   decide
+
+/-- the struct tag is one string literal, whatever free text the values carry -/
+theorem struct_tag_one_token (tags : List (Tags.Str × Tags.Str)) (custom : Tags.Str)
+    (hk : ∀ kv ∈ tags, '`' ∉ kv.1) (hc : '`' ∉ custom) :
+    Tags.rawOneToken (Tags.printTags tags custom) = true ∨ Tags.interpOneToken (Tags.printTags tags custom) = true :=
+  Tags.printTags_one_token tags custom hk hc
+
+theorem quote_is_one_token (s : Tags.Str) : Tags.interpOneToken (Tags.quote s) = true := Tags.quote_one_token s
+
+theorem last_value_rule_is_unsafe :
+    let tags := [("json".toList, "name".toList), ("description".toList, "a` }; var X = 1; type T struct { F int `b".toList), ("yaml".toList, "name".toList)]
+    Tags.rawOneToken (Tags.printTagsLastWins tags []) = false ∧ Tags.interpOneToken (Tags.printTagsLastWins tags []) = false ∧
+    (Tags.rawOneToken (Tags.printTags tags []) = true ∨ Tags.interpOneToken (Tags.printTags tags []) = true) :=
+  Tags.last_value_rule_is_unsafe
 
 /-- the escaper a lexical context needs -/
 def siteOk (s : Site) : Bool :=
